@@ -25,7 +25,7 @@ DTYPES = ("float32", "float64", "uint8")
 
 def REQUIRED(tier):
     return ["running_filter", "running:w>n", "running:even_w", "downsample_1d", "downsample_1d:factor==n", "downsample_2d", "downsample_2d_flat", "kernel_2d_flat",
-            "kernel_parallel", "overflow_probe", "detrend", "deredden", "ts_downsample", "block_downsample", "canary_audits"]
+            "kernel_parallel", "overflow_probe", "detrend", "deredden", "ts_downsample", "block_downsample", "canary_audits", "input_unchanged_checks"]
 
 
 def EXHAUSTIVE(tier):
@@ -98,6 +98,10 @@ def _running(case, ctx, ws=None, n=None):
                     ctx.violation(f"running-length[{reg}]", f"n={n} w={w}: output length {np.asarray(got).shape}", one)
                     continue
                 want = refmodels.running_filter_ref(x64, w, method)
+                ctx.count("input_unchanged_checks")
+                if not np.array_equal(np.asarray(xin), x):
+                    ctx.violation("input-modified:running_filter", f"n={n} w={w} {dt} {method}: the caller's array was changed in place", one)
+                    return
                 if not _close(got, want, np.abs(x64).max(), w):
                     i = int(np.argmax(np.abs(np.asarray(got, dtype=np.float64) - want)))
                     ctx.violation(f"running-values[{reg}]", f"n={n} w={w} {dt} {method}: out[{i}]={np.asarray(got)[i]!r}, definition {want[i]!r}", one)
@@ -144,6 +148,10 @@ def _ds1d(case, ctx):
                     ctx.count("canary_audits")
                     if fr.audit():
                         ctx.violation("oob-store:downsample_1d", str(fr.audit()), one)
+                    ctx.count("input_unchanged_checks")
+                    if not np.array_equal(np.asarray(xin), x):
+                        ctx.violation(f"input-modified:downsample_1d:{method}", f"n={n} f={f} {dt}: the caller's array was changed in place", one)
+                        continue
                     want = groups.mean(axis=1) if method == "mean" else np.median(groups, axis=1)
                     if got.shape != (m,):
                         ctx.violation(f"ds1d-length:{method}", f"n={n} f={f}: {got.shape[0]} outputs, {m} full groups", one)
@@ -209,7 +217,11 @@ def _ds2d(case, ctx, d2s=None):
                     ctx.evaluated(); ctx.count("downsample_2d")
                     try:
                         ain = np.array(a.T, order="C", copy=True).T if (f1 + f2 + d2) % 3 == 0 else a   # transposed strides, same values
+                        akeep = np.array(ain, copy=True)
                         got = stats.downsample_2d(ain, (f1, f2), method)
+                        ctx.count("input_unchanged_checks")
+                        if not np.array_equal(ain, akeep):
+                            ctx.violation(f"input-modified:downsample_2d:{method}", f"({d1},{d2}) factors ({f1},{f2}) {dt}: the caller's array was changed in place", one)
                         _check2d(ctx, dict(one, method=method), f"downsample_2d:{method}", got, want, dt, scale)
                     except Exception as exc:  # noqa: BLE001
                         ctx.violation(f"downsample_2d-raised:{method}:{type(exc).__name__}@{exc_site(exc)}", fmt_exc(exc), one)
@@ -218,6 +230,9 @@ def _ds2d(case, ctx, d2s=None):
                     flat = fr.like(a.ravel(), "flat")
                     try:
                         gotf = np.asarray(stats.downsample_2d_flat(flat, f1, f2, d1, d2, method=method))
+                        ctx.count("input_unchanged_checks")
+                        if not np.array_equal(np.asarray(flat), a.ravel()):
+                            ctx.violation(f"input-modified:downsample_2d_flat:{method}", f"({d1},{d2}) factors ({f1},{f2}) {dt}: the caller's array was changed in place", one)
                         _check2d(ctx, dict(one, method=method), f"downsample_2d_flat:{method}", gotf.reshape(m1, m2) if gotf.size == m1 * m2 else gotf, want, dt, scale)
                     except Exception as exc:  # noqa: BLE001
                         ctx.violation(f"downsample_2d_flat-raised:{method}:{type(exc).__name__}@{exc_site(exc)}", fmt_exc(exc), one)
@@ -355,6 +370,9 @@ def _compose(case, ctx):
                         ctx.violation(f"ts-downsample:{method}", f"n={n} f={f}: TimeSeries.downsample differs from group {method}s or header length wrong", one)
                 except Exception as exc:  # noqa: BLE001
                     ctx.violation(f"ts-downsample-raised:{type(exc).__name__}@{exc_site(exc)}", f"n={n} f={f}: {fmt_exc(exc)}", one)
+        ctx.count("input_unchanged_checks")
+        if not np.array_equal(np.asarray(ts.data), x):
+            ctx.violation("input-modified:TimeSeries", f"n={n}: TimeSeries.data changed by deredden/downsample calls that return new objects", {"kind": "compose", "seed": case["seed"], "n": n})
     for nch, n in ((1, 1), (1, 7), (4, 9), (8, 30), (6, 11), (12, 12)):
         a = (rng.normal(size=(nch, n)) * 5).astype(np.float32)
         a64 = a.astype(np.float64)
@@ -374,3 +392,6 @@ def _compose(case, ctx):
                         ctx.nontrivial_case(one)
                 except Exception as exc:  # noqa: BLE001
                     ctx.violation(f"block-downsample-raised:{type(exc).__name__}@{exc_site(exc)}", f"({nch},{n}) f={ff} t={tf}: {fmt_exc(exc)}", one)
+        ctx.count("input_unchanged_checks")
+        if not np.array_equal(np.asarray(blk.data), a):
+            ctx.violation("input-modified:FilterbankBlock", f"({nch},{n}): block data changed by downsample calls that return new blocks", {"kind": "compose", "seed": case["seed"], "shape": [nch, n]})
